@@ -37,9 +37,10 @@ Inductive daemon := DPrimary | DBefore | DAfter | DWhopper.
    getter/setter are defflavor.go's [getter]/[setter], BVanilla is one of vanilla.go's callers *)
 Inductive body := BUser (id : nat) (cont : bool) | BGetter (v : nat) | BSetter (v : nat) | BVanilla.
 
-Record version := { v_insert : bool; v_vanilla : bool; v_bound : bool }.   (* true = repaired code *)
-Definition fixed : version := {| v_insert := true; v_vanilla := true; v_bound := true |}.
-Definition original : version := {| v_insert := false; v_vanilla := false; v_bound := false |}.
+(* v_io (repo_fixes/C11-4, C11-5): inheritFlavor also copies the inittable set and the required init keywords *)
+Record version := { v_insert : bool; v_vanilla : bool; v_bound : bool; v_io : bool }.   (* true = repaired code *)
+Definition fixed : version := {| v_insert := true; v_vanilla := true; v_bound := true; v_io := true |}.
+Definition original : version := {| v_insert := false; v_vanilla := false; v_bound := false; v_io := false |}.
 
 (* ---- association lists (Go maps) ------------------------------------------------------------------ *)
 Section Assoc.
@@ -63,6 +64,9 @@ Section Assoc.
 End Assoc.
 
 Definition isSome {A} (o : option A) : bool := match o with Some _ => true | None => false end.
+(* for _, k := range src { if !contains(dst, k) { dst = append(dst, k) } } *)
+Definition add_missing (dst src : list nat) : list nat :=
+  fold_left (fun acc k => if existsb (Nat.eqb k) acc then acc else acc ++ [k]) src dst.
 
 (* ---- state ------------------------------------------------------------------------------------- *)
 Record combo := { c_from : nat; c_prim : option body; c_bef : option body; c_aft : option body; c_wrap : option body }.
@@ -73,8 +77,8 @@ Record flavor := {
   f_keys : list (nat * val);            (* Flavor.keywords *)
   f_meths : list (mid * list nat);      (* Flavor.methods: message -> Method.Combinations (addresses) *)
   f_prec : list nat;                    (* Flavor.Precedence without the trailing instance, t *)
-  f_initable : list nat;                (* Flavor.initable: the flavor's OWN :inittable-instance-variables (not inherited by the code) *)
-  f_required : list nat                 (* Flavor.requiredKeywords: the flavor's OWN :required-init-keywords *)
+  f_initable : list nat;                (* Flavor.initable (a Go set): own and, since C11-4, inherited :inittable-instance-variables *)
+  f_required : list nat                 (* Flavor.requiredKeywords: own and, since C11-5, inherited :required-init-keywords, each once *)
 }.
 Record state := { st_flavors : list flavor; st_heap : list combo }.   (* allFlavors in definition order; all Combinations *)
 
@@ -195,7 +199,9 @@ Fixpoint inherit_flavor (v : version) (fuel : nat) (st : state) (obj : flavor) (
                               f_vars := merge_absent Nat.eqb (f_vars obj) (f_vars c);
                               f_keys := merge_absent Nat.eqb (f_keys obj) (f_keys c);
                               f_meths := merge_meths v (st_heap st) (f_meths obj) cf (f_meths c);
-                              f_prec := f_prec obj; f_initable := f_initable obj; f_required := f_required obj |} in
+                              f_prec := f_prec obj;
+                              f_initable := if v_io v then f_initable obj ++ f_initable c else f_initable obj;
+                              f_required := if v_io v then add_missing (f_required obj) (f_required c) else f_required obj |} in
                fold_left (fun o f2 => match o with
                                       | None => None
                                       | Some o' => if f2 =? vanilla then Some o' else inherit_flavor v k st o' f2
@@ -234,10 +240,13 @@ Definition def_flavor (v : version) (st : state) (f : nat) (vars : list (nat * v
     match r with
     | inl e => (st, e)
     | inr nf1 =>
-        (* processFlavorOptions: :default-init-plist overwrites, then the accessors *)
+        (* processFlavorOptions: :default-init-plist overwrites, then the accessors; the inittable variables are
+           added to the (inherited; empty in the original code) set; the required keywords are appended to the
+           inherited ones (original code: they replace the list, which is empty there) *)
         let nf2 := {| f_name := f; f_inherit := f_inherit nf1; f_vars := f_vars nf1;
                       f_keys := set_all Nat.eqb (f_keys nf1) keys; f_meths := f_meths nf1; f_prec := [];
-                      f_initable := acc_vars (io_inits io) nf1; f_required := io_reqs io |} in
+                      f_initable := f_initable nf1 ++ acc_vars (io_inits io) nf1;
+                      f_required := if v_io v then add_missing (f_required nf1) (io_reqs io) else io_reqs io |} in
         let hf3 := def_accessors MGet BGetter (acc_vars gets nf2) (st_heap st, nf2) in
         let hf4 := def_accessors MSet BSetter (acc_vars sets nf2) hf3 in
         let st4 := {| st_flavors := st_flavors st; st_heap := fst hf4 |} in
